@@ -112,6 +112,11 @@ device_cb(void *arg)
 			nni_msg_free(nni_aio_get_msg(&p->aio));
 			nni_aio_set_msg(&p->aio, NULL);
 		}
+		if (p->state == NNI_DEVICE_STATE_SEND) {
+			// The send succeeded: the message belongs to the
+			// socket now, whatever pointer is left on the aio.
+			nni_aio_set_msg(&p->aio, NULL);
+		}
 	}
 	if (rv != 0) {
 		if (p->state == NNI_DEVICE_STATE_SEND) {
